@@ -93,6 +93,12 @@ def run(ctx, R):
                 guarded = True
             if mentions(c, "swap") and c["k"] == "Binary" and c.get("op") == "And" and not mentions(c["a"], "swap"):
                 guarded = True
+    # ... and the test comes first: the flag is consumed only on the path where the interrupt is also thrown (MIR dominance)
+    eb_blocks = g.call_blocks(lambda t: callee_of(t).endswith("::effective_block"))
+    guard_first = bool(eb_blocks) and any(b in dom.get(swap[0], ()) for b in eb_blocks)
+    R.ob("C31:poll:flag-consumed-only-after-the-stale-block-test", guard_first,
+         "check_for_interrupt clears the INTERRUPT flag before it has compared the block register with b: a poll that lands between the pop of a catch/3 choice point and "
+         "'$reset_block' then returns without throwing and the interrupt is lost, not deferred", F.where(cf))
     R.ob("C31:poll:not-taken-while-block-register-is-stale", guarded,
          "check_for_interrupt consumes the flag and throws without comparing the block register with b: an interrupt polled between the pop of a catch/3 choice point "
          "and '$reset_block' backtracks into a frame that is gone (repeat, catch(throw(x), x, true), fail under repeated SIGINT: `code pointer p = ... is oob`)", F.where(cf))
